@@ -1,7 +1,9 @@
 import QG.Props.C20
 #print axioms QG.C20.max_label_spec
-#print axioms QG.C20.native_gate_spec
-#print axioms QG.C20.native_gate_unmixed
+#print axioms QG.C20.natives_spec
+#print axioms QG.C20.calib_eq_none_iff
+#print axioms QG.C20.calib_eq_some_iff
+#print axioms QG.C20.calib_single_gate
 #print axioms QG.C20.per_qubit_spec
 #print axioms QG.C20.per_qubit_at
 #print axioms QG.C20.table_shape
